@@ -69,7 +69,7 @@ Proof.
   destruct (uses_chars p); [destruct mc as [|c cs]|]; cbn;
     (destruct (p_run p _ _ _) as [es|]; cbn; [|split; reflexivity]);
     (destruct (rp ++ es) as [|e r]; cbn; [split; reflexivity|]);
-    (destruct (e_resolve E _ _ _) as [[tgt tmap] sz]; cbn);
+    (destruct (e_resolve E _ _ _) as [[[tgt tmap] sz]|]; cbn; [|split; reflexivity]);
     (destruct (N.ltb _ sz); cbn; split; reflexivity).
 Qed.
 
@@ -81,7 +81,7 @@ Proof.
   intros E ps. induction ps as [|p ps IH]; intros b b' H; cbn [rewrite_input]; [split; [reflexivity|exact H]|].
   destruct (plugin_step_same E p b b' H) as [H1 H2].
   destruct (plugin_step Fexp E p b) as [ok r]. destruct (plugin_step Fexp E p b') as [ok' r'].
-  cbn [fst snd] in H1, H2. subst ok'. destruct ok; [apply IH; exact H2|split; [reflexivity|exact H2]].
+  cbn [fst snd] in H1, H2. subst ok'. destruct ok; [apply IH; exact H2|split; [reflexivity|exact H2]..].
 Qed.
 
 (* after build the buffers agree on everything but modified_2 *)
@@ -150,9 +150,10 @@ Proof.
   unfold analysis_phase. cbn [input lat subset mode top_path top_path_ids debug oov].
   rewrite !visible_lat_reset. rewrite <- Hv, <- Hc.
   destruct (co_ids (e_core E (view_of b) ss _)) as [ids|].
-  - destruct (e_prw E (view_of b) ss _ _) as [p2|].
+  - destruct (e_prw E (view_of b) ss _ _) as [p2| |].
     + destruct (e_split E m ss (view_of b) p2) as [p3|]; cbn [fst snd collected top_path input subset];
         rewrite <- ?Hv, <- ?Hs; split; reflexivity.
+    + cbn [fst snd collected top_path]. split; reflexivity.
     + cbn [fst snd collected top_path]. split; reflexivity.
   - cbn [fst snd]. unfold collected. cbn [top_path input subset]. rewrite <- ?Hv, <- ?Hs. split; reflexivity.
 Qed.
@@ -174,7 +175,7 @@ Proof.
   destruct (rewrite_input_same E (e_plugins E) b1 b1' A2) as [B1 B2].
   destruct (rewrite_input Fexp E (e_plugins E) b1) as [ok2 b2]. destruct (rewrite_input Fexp E (e_plugins E) b1') as [ok2' b2'].
   cbn [fst snd] in B1, B2. subst ok2'.
-  destruct ok2; cbn [negb]; [|split; [reflexivity|discriminate]].
+  destruct ok2; [|split; [reflexivity|discriminate]..].
   pose proof (build_same E b2 b2' B2) as C.
   destruct (eq_upto_view _ _ C) as [Cv Cs].
   assert (Cm : modified (build Fexp E b2) = modified (build Fexp E b2')).
@@ -226,7 +227,7 @@ Proof.
   destruct (uses_chars p); [destruct mc as [|c cs]|]; cbn;
     (destruct (p_run p _ _ _) as [es|]; cbn; [|reflexivity]);
     (destruct es as [|e r]; cbn; [reflexivity|]);
-    (destruct (e_resolve E _ _ _) as [[tgt tmap] sz]; cbn);
+    (destruct (e_resolve E _ _ _) as [[[tgt tmap] sz]|]; cbn; [|reflexivity]);
     (destruct (N.ltb _ sz); reflexivity).
 Qed.
 
@@ -234,14 +235,14 @@ Lemma replaces_rewrite_input E : forall ps b, replaces b = [] -> replaces (snd (
 Proof.
   induction ps as [|p ps IH]; intros b H; cbn [rewrite_input]; [exact H|].
   pose proof (replaces_plugin_step E p b H) as H1.
-  destruct (plugin_step Fexp E p b) as [ok r]. cbn [snd] in H1. destruct ok; [apply IH; exact H1|exact H1].
+  destruct (plugin_step Fexp E p b) as [ok r]. cbn [snd] in H1. destruct ok; [apply IH; exact H1|exact H1..].
 Qed.
 
 Lemma inv_analysis_phase E s : inv_tok s -> inv_tok (snd (analysis_phase Fexp E s)).
 Proof.
   intros [Hr Hi]. unfold analysis_phase, inv_tok.
   destruct (co_ids _) as [ids|]; [|cbn; split; assumption].
-  destruct (e_prw _ _ _ _ _) as [p2|]; [|cbn; split; [assumption|reflexivity]].
+  destruct (e_prw _ _ _ _ _) as [p2| |]; [|cbn; split; [assumption|reflexivity]..].
   destruct (e_split _ _ _ _ _) as [p3|]; cbn; split; try assumption; reflexivity.
 Qed.
 
@@ -253,7 +254,7 @@ Proof.
   destruct ok1; cbn [negb]; [|destruct s; unfold inv_tok; cbn in *; split; congruence].
   pose proof (replaces_rewrite_input E (e_plugins E) b1 ltac:(congruence)) as H2.
   destruct (rewrite_input Fexp E (e_plugins E) b1) as [ok2 b2]. cbn [snd] in H2.
-  destruct ok2; cbn [negb]; [|destruct s; unfold inv_tok; cbn in *; split; congruence].
+  destruct ok2; [|destruct s; unfold inv_tok; cbn in *; split; congruence..].
   destruct (is_nil _).
   - destruct s as [b d m o l i p ss]; unfold inv_tok, with_input; cbn [snd input top_path_ids] in *.
     split; [rewrite replaces_build; exact H2|exact Hi].
@@ -346,10 +347,10 @@ Proof.
   assert (H : forall s, mode (snd (analyse Fexp E t1 s)) = mode s /\ subset (snd (analyse Fexp E t1 s)) = subset s).
   { intros s. unfold analyse, do_tokenize.
     destruct (start_build _ _) as [ok1 b1]. destruct ok1; cbn [negb]; [|destruct s; split; reflexivity].
-    destruct (rewrite_input _ _ _ _) as [ok2 b2]. destruct ok2; cbn [negb]; [|destruct s; split; reflexivity].
+    destruct (rewrite_input _ _ _ _) as [ok2 b2]. destruct ok2; [|destruct s; split; reflexivity..].
     destruct (is_nil _); [destruct s; split; reflexivity|].
     unfold analysis_phase. destruct (co_ids _); [|destruct s; split; reflexivity].
-    destruct (e_prw _ _ _ _ _); [|destruct s; split; reflexivity].
+    destruct (e_prw _ _ _ _ _); [|destruct s; split; reflexivity..].
     destruct (e_split _ _ _ _ _); destruct s; split; reflexivity. }
   destruct (H (tk y)) as [-> ->]. reflexivity.
 Qed.
